@@ -21,7 +21,8 @@ REGISTRY = {}      # qualname -> Contract
 class Contract:
     def __init__(self, qualname, props, instances, requires=(), ensures=(), effects=(), raises=(), modifies=(),
                  loops=None, comps=None, returns=None, decreases=None, trusted=False, note="", canaries=(),
-                 call_when=None, pure=False, gen=None, may_raise=(), taint=()):
+                 call_when=None, pure=False, gen=None, may_raise=(), taint=(), inherited=None):
+        self.inherited = inherited                  # (param names) the method may be inherited unchanged from list
         self.taint = list(taint)                    # parameters standing for a symbolic weight (non-interference)
         self.may_raise = list(may_raise)            # exceptions the function may raise exactly as its base class does
         self.gen = gen                              # fold contract of a generator function
@@ -379,6 +380,13 @@ def verify_instance(db, contracts, c, inst_index, max_paths=400, time_budget=120
     fd = db.lookup(modname, fpath)
     res = {"qualname": c.qualname, "instance": inst, "obligations": [], "status": "ok", "paths": 0,
            "inlined": [], "used_contracts": [], "lemmas": [], "unsupported": None}
+    if fd is None and c.inherited is not None and "." in fpath and fpath.split(".")[0] in db.classes:
+        # API-completeness obligation: the class does not define this mutator, so the base-class behaviour is what
+        # users get; it is verified against the contract through the trusted specification of the base method
+        params = ", ".join(["self"] + list(c.inherited))
+        src = "def %s(%s):\n    return super().%s(%s)\n" % (fpath.split(".")[1], params, fpath.split(".")[1], ", ".join(c.inherited))
+        fd = ast.parse(src).body[0]
+        res["synthesized"] = "inherited from the base class (not defined in %s)" % fpath.split(".")[0]
     if fd is None:
         res["status"] = "missing"
         res["unsupported"] = "function not found in current source"
